@@ -50,6 +50,10 @@ CLAIMS = {
    text="Theorems on the loader model: whatever an import attempt does - succeed, fail with any error at any depth of the import graph - afterwards the set of libraries being imported is exactly what it was before, and root frame, program directory and import phase are untouched (mutual induction over eval_import_set / get_library / eval_import / eval_library_definition); a cyclic import is reported exactly when the library is reached while it is being imported, otherwise the outcome is the outcome of loading it; a failed load is not cached; library files are looked up relative to the program's directory. Together: the outcome of an import does not depend on earlier attempts. Tied to the code by every digraph on 1 and 2 libraries (3 sampled in thorough) x every node kind (healthy, missing, faulting body, wrong name, syntactically broken, not UTF-8) x files and registered sources x histories of up to 3 attempts; outcomes compared model vs implementation and each attempt against the same import on a fresh interpreter.",
    note=COMMON_NOTE + "; termination is by fuel in the model: the bound 'number of libraries + 1 suffices' is not proved (every generated graph terminates on both sides); the file system is an oracle",
    technique="Coq proof (invariant by mutual fuel induction over the loader) + exhaustive small-graph differential correspondence with history-independence oracle"),
+ "C16": dict(
+   text="Theorems: every exact integer of the i32 range prints as text that the lexer's integer conversion reads back as the same integer (digit generation and digit reading are inverse: induction with a sufficient-fuel bound), hence distinct integers print differently; a ratio prints as numerator/denominator; booleans and characters print as the tokens that denote them; lists print with single spaces, with a dotted tail exactly when improper. Tied to values.rs/pair.rs by random value trees of the readable subset (boundary integers, ratios of both signs incl. results of division, edge-case and random binary32 patterns, characters, plain/peculiar symbols, proper/improper lists, nested and empty vectors) and the results of arithmetic on the C09 grid: each value is displayed, the text quoted and read back on the same interpreter; text and both values are compared model vs implementation, the read-back value must equal the original (same exactness, bit-identical reals) and distinct values must print differently.",
+   note=COMMON_NOTE + "; PARTIAL: the real-number leaf is conditional - Rust's shortest-digit f32 printing has no Coq model; the model's printer (exact search) is validated against it on every run (thorough: 200000 random finite patterns), not proved; the composition read(display v) = v for whole trees rests on the correspondence",
+   technique="Coq proof (integer print/parse inverse, printer shape lemmas) + round-trip differential correspondence on random value trees"),
  "C17": dict(
    text="Theorems on the model of `ruschm FILE`: running a file is evaluating its text (as io.rs hands it to the lexer) with the program's directory set; an LF file reads as itself, the same file with CR LF line ends reads as the LF file, a missing final newline is supplied (so line-end convention and final newline cannot change the outcome); the forms are evaluated in order and the run stops at the first failing form, every form before it having succeeded; exit status 0 exactly when every form succeeded (then no diagnostic), otherwise one diagnostic carrying the failing form's error and status 255; a missing / non-UTF-8 / directory path is a diagnostic with non-zero status. main.rs is short, so the weight is in the tie: random displaying programs with an optional run-time or syntax fault at a random position, comments/blank lines, LF or CR LF, with/without final newline, run through the BUILT BINARY from another working directory: stdout bytes, exit status and the diagnostic's location vs the model, stdout vs in-process evaluation of the same text, and invariance under the other line-end / final-newline choice.",
    note=COMMON_NOTE + "; process exit status, stdio flushing and termcolor output are runtime facts observed on the binary; the diagnostic's message text is not compared",
